@@ -392,20 +392,29 @@ def translate_adopt(repo):
 
 
 # ---------------------------------------------------------------------------------------------------
-# cycle.rs: the reachability trace. The loop skeleton of `cycle_refs` (worklist popped from the back,
-# visited set, one pass over the popped node's table) and the shape of `orphaned_cycle` are matched
-# against fixed templates; the two places that carry the decision logic are TRANSLATED:
+# cycle.rs: the reachability trace. Both functions are TRANSLATED statement by statement:
+#   * the control skeleton of `cycle_refs`                        -> [g_cycle_refs_skel : list wstmt]
+#   * the control skeleton of `Rc::orphaned_cycle`                -> [g_orphaned_skel : list ostmt]
 #   * the body of `for (&link, &strong) in links.iter() { .. }`  -> [g_entry_body : list estmt]
 #   * the predicate of `.any(|(item, &cycle_owned_refs)| ..)`       -> [g_external : N -> N -> bool]
-SKEL_REFS = (r"let mut cycle_owned_refs = HashMap::default\(\); let mut discovered = vec!\[this\]; "
-             r"let mut visited = HashSet::default\(\); while let Some\(node\) = discovered\.pop\(\) \{ "
-             r"if visited\.contains\(&node\) \{ continue; \} visited\.insert\(node\); "
-             r"let links = unsafe \{ node\.as_ref\(\)\.links\(\)\.borrow\(\) \}; "
-             r"for \(&link, &strong\) in links\.iter\(\) \{ (?P<body>.*) \} \} "
-             r"(?:debug_cycle\(&cycle_owned_refs\); )?cycle_owned_refs$")
-SKEL_ORPH = (r"let cycle = cycle_refs\(Link::forward\(this\.ptr\)\); if cycle\.is_empty\(\) \{ return None; \} "
-             r"let has_external_owners = cycle\.iter\(\)\.any\(\|\(item, &cycle_owned_refs\)\| (?P<pred>[^;]*)\); "
-             r"if has_external_owners \{ None \} else \{ Some\(cycle\) \}$")
+# The order (and multiplicity) of the statements is the one found in the source; what a skeleton MEANS
+# is gen/CycleSkelLang.v, and that the translated ones are the model's `cycle_refs`/`orphaned_cycle` is
+# proved in gen/CycleSkelProofs.v. A statement that is none of the forms below -> Unsupported.
+REFS_TOP = [(r"let mut cycle_owned_refs = HashMap::default\(\);", "WInitMap"),
+            (r"let mut discovered = vec!\[this\];", "WInitWork"),
+            (r"let mut visited = HashSet::default\(\);", "WInitVisited")]
+REFS_WHILE = r"while let Some\(node\) = discovered\.(pop\(\)|remove\(0\)) \{"
+POPS = {"pop()": "PopBack", "remove(0)": "PopFront"}
+REFS_LOOP = [(r"if visited\.contains\(&node\) \{ continue; \}", "WIfVisitedContinue"),
+             (r"visited\.insert\(node\);", "WMarkVisited"),
+             (r"let links = unsafe \{ node\.as_ref\(\)\.links\(\)\.borrow\(\) \};", "WBorrowNode")]
+REFS_FOR = r"for \(&link, &strong\) in links\.iter\(\) \{"
+REFS_RET = r"cycle_owned_refs$"
+ORPH_STMTS = [(r"let cycle = cycle_refs\(Link::forward\(this\.ptr\)\);", "OTrace"),
+              (r"if cycle\.is_empty\(\) \{ return None; \}", "OIfEmptyReturnNone"),
+              (r"let has_external_owners = cycle\.iter\(\)\.any\(\|\(item, &cycle_owned_refs\)\| (?P<pred>[^;]*)\);",
+               "OAnyExternal"),
+              (r"if has_external_owners \{ None \} else \{ Some\(cycle\) \}$", "OIfExternalNoneElseSome")]
 KINDS = {"Forward": "Fwd", "Backward": "Bwd", "Loopback": "Loop"}
 
 
@@ -514,26 +523,111 @@ def pred_expr(txt):
             "<=": "(%s <=? %s)" % (l, r), "==": "(%s =? %s)" % (l, r), "!=": "(negb (%s =? %s))" % (l, r)}[op]
 
 
+def _norm_cycle(body):
+    """_norm + removal of the debug-only call and of the logging macros"""
+    body = re.sub(r"#\[cfg\(debug_assertions\)\]\s*debug_cycle\([^;]*\);", "", body)
+    body = _norm(body)
+    body = re.sub(r"\b(?:trace|debug)!\((?:[^()]|\((?:[^()]|\([^()]*\))*\))*\);", "", body)
+    return " ".join(body.split())
+
+
+def _close(txt, i):
+    """txt[i-1] is an opening brace: index just after the matching closing one"""
+    depth = 1
+    while depth:
+        if i >= len(txt):
+            raise Unsupported("unbalanced braces in cycle.rs")
+        depth += txt[i] == "{"
+        depth -= txt[i] == "}"
+        i += 1
+    return i
+
+
+def refs_stmts(txt, in_loop, bodies):
+    """one statement at a time -> list of Gallina wstmt terms; the texts of the bodies of the
+    `for (&link, &strong) in links.iter()` loops met on the way are appended to [bodies]"""
+    out = []
+    txt = txt.strip()
+    while txt:
+        if in_loop:
+            m = re.match(REFS_FOR, txt)
+            if m:
+                j = _close(txt, m.end())
+                bodies.append(txt[m.end():j - 1])
+                out.append("WForEntries")
+                txt = txt[j:].strip()
+                continue
+            forms = REFS_LOOP
+        else:
+            m = re.match(REFS_WHILE, txt)
+            if m:
+                j = _close(txt, m.end())
+                inner = refs_stmts(txt[m.end():j - 1], True, bodies)
+                out.append("WWhilePop %s [ %s ]" % (POPS[m.group(1)], "; ".join(inner)))
+                txt = txt[j:].strip()
+                continue
+            forms = REFS_TOP + [(REFS_RET, "WReturnMap")]
+        for pat, term in forms:
+            m = re.match(pat, txt)
+            if m:
+                out.append(term)
+                txt = txt[m.end():].strip()
+                break
+        else:
+            raise Unsupported("cycle_refs statement outside the subset (%s): %r"
+                              % ("loop body" if in_loop else "function body", txt[:70]))
+    return out
+
+
+def orph_stmts(txt):
+    """-> (list of Gallina ostmt terms, texts of the `.any(..)` predicates met)"""
+    out, preds = [], []
+    txt = txt.strip()
+    while txt:
+        for pat, term in ORPH_STMTS:
+            m = re.match(pat, txt)
+            if m:
+                out.append(term)
+                if "pred" in m.groupdict():
+                    preds.append(m.group("pred").strip())
+                txt = txt[m.end():].strip()
+                break
+        else:
+            raise Unsupported("orphaned_cycle statement outside the subset: %r" % txt[:70])
+    return out, preds
+
+
 def translate_cycle(repo):
     path = repo + "/src/cycle.rs"
     src = open(path).read()
-    refs = _norm(_fn_body(src, r"fn cycle_refs<T>\(this: Link<T>\) -> HashMap<Link<T>, usize> \{"))
-    m = re.match(SKEL_REFS, refs)
-    if not m:
-        raise Unsupported("cycle_refs no longer has the loop skeleton the model's trace_go transcribes")
-    body = entry_stmts(m.group("body"))
-    orph = _norm(_fn_body(src, r"fn orphaned_cycle\(this: &Self\) -> Option<HashMap<Link<T>, usize>> \{"))
-    m2 = re.match(SKEL_ORPH, orph)
-    if not m2:
-        raise Unsupported("orphaned_cycle no longer has the shape the model transcribes")
-    pred = pred_expr(m2.group("pred").strip())
+    refs = _norm_cycle(_fn_body(src, r"fn cycle_refs<T>\(this: Link<T>\) -> HashMap<Link<T>, usize> \{"))
+    bodies = []
+    skel = refs_stmts(refs, False, bodies)
+    # one generated body constant: every entry loop of the skeleton runs [g_entry_body]
+    if not bodies:
+        raise Unsupported("cycle_refs: no `for (&link, &strong) in links.iter()` loop")
+    if any(b.strip() != bodies[0].strip() for b in bodies):
+        raise Unsupported("cycle_refs: several entry loops with different bodies")
+    body = entry_stmts(bodies[0])
+    orph = _norm_cycle(_fn_body(src, r"fn orphaned_cycle\(this: &Self\) -> Option<HashMap<Link<T>, usize>> \{"))
+    oskel, preds = orph_stmts(orph)
+    if not preds:
+        raise Unsupported("orphaned_cycle: no `cycle.iter().any(..)`")
+    if any(q != preds[0] for q in preds):
+        raise Unsupported("orphaned_cycle: several `.any(..)` with different predicates")
+    pred = pred_expr(preds[0])
     return ("(* GENERATED by tools/rs2v.py from %s -- do not edit. *)\n"
             "From Coq Require Import NArith List. Import ListNotations.\n"
             "From CR Require Import Base.\nFrom Gen Require Import CycleLang.\nLocal Open Scope N_scope.\n\n"
             "(* body of `for (&link, &strong) in links.iter()` in cycle_refs *)\n"
             "Definition g_entry_body : list estmt :=\n  [ %s ].\n\n"
             "(* `item.strong() .. cycle_owned_refs` in orphaned_cycle's `.any(..)` *)\n"
-            "Definition g_external (strong owned : N) : bool := %s.\n" % (path, ";\n    ".join(body), pred))
+            "Definition g_external (strong owned : N) : bool := %s.\n\n"
+            "(* the statements of cycle_refs, in source order (meaning: gen/CycleSkelLang.v) *)\n"
+            "Definition g_cycle_refs_skel : list wstmt :=\n  [ %s ].\n\n"
+            "(* the statements of Rc::orphaned_cycle, in source order *)\n"
+            "Definition g_orphaned_skel : list ostmt :=\n  [ %s ].\n"
+            % (path, ";\n    ".join(body), pred, ";\n    ".join(skel), ";\n    ".join(oskel)))
 
 
 # ---------------------------------------------------------------------------------------------------
@@ -625,12 +719,17 @@ EFFECTS = [(r"\.make_uninit\(\)", "MakeUninit"), (r"mem::replace\(&mut \(\*rcbox
            (r"\*this = rc\.assume_init\(\)", "AssignDropOld"), (r"ptr::write\(this, rc\.assume_init\(\)\)", "OverwriteNoDrop"),
            (r"\bOk\(val\)", "ReturnOk"), (r"\bErr\(this\)", "ReturnErr"), (r"\breturn;", "Return"),
            (r"ManuallyDrop::new\(", "ManuallyDropNew"), (r"Rc::(?:<T>::)?from_raw\(", "FromRaw"), (r"\bdrop\(Rc::from_raw\(", "DropFromRaw"),
-           (r"Self::as_ptr\(", "AsPtr"), (r"data_offset\(", "DataOffset"), (r"Self::from_ptr\(", "FromPtr")]
+           (r"Self::as_ptr\(", "AsPtr"), (r"data_offset\(", "DataOffset"), (r"Self::from_ptr\(", "FromPtr"),
+           # a reference to the value of the allocation just made: no effect of its own
+           (r"Rc::get_mut_unchecked\(", None),
+           # any other call into the Rc API: so that a new condition or helper call cannot hide between markers
+           (r"\b(?:Rc|Self)::[a-z_]+\(", "OtherCall")]
 EFF_RE = re.compile("|".join("(?P<e%d>%s)" % (i, p) for i, (p, _) in enumerate(EFFECTS)))
 
 
 def _markers(txt):
-    return ["E %s" % EFFECTS[int(m.lastgroup[1:])][1] for m in EFF_RE.finditer(txt)]
+    return ["E %s" % EFFECTS[int(m.lastgroup[1:])][1] for m in EFF_RE.finditer(txt)
+            if EFFECTS[int(m.lastgroup[1:])][1] is not None]
 
 
 def effect_tree(txt):
